@@ -33,7 +33,7 @@ import (
 
 func init() {
 	mon.RegisterCfg("C01", mon.Config{
-		Rule: "stratum constructed: generated fonts (TrueType simple/composite, simple CFF, CID-keyed CFF x glyph-count class x cmap class x layout class x header-field class) are written twice (byte-identical?), read back and compared with the normal form N(F) of the property, then taken once more round the cycle (fixed point, byte-identical second write); a sample is also written in a second OS process (fresh map seeds). stratum bytes: corpus files, library-written files and accepted mutants b: G=Read(b), Read(Write(G))==G, Write(Read(Write(G)))==Write(G). distinct = distinct written files (hash)",
+		Rule: "stratum constructed: generated fonts (TrueType simple/composite, simple CFF, CID-keyed CFF x glyph-count class x cmap class x layout class x header-field class) are written twice (byte-identical?), read back and compared with the normal form N(F) of the property, then taken once more round the cycle (fixed point, byte-identical second write); a sample is also written in a second OS process (fresh map seeds). stratum bytes: corpus files, library-written files and accepted mutants b: G=Read(b), Read(Write(G))==G, Write(Read(Write(G)))==Write(G). distinct = distinct written files (hash); stratum rich-layout: whole fonts whose GSUB/GPOS/GDEF come from gen/otl (every lookup type and format the encoders support) through the same sequence; stratum concurrent-read: 8 files read and re-written alone and concurrently, digests must agree",
 		Assumptions: []string{
 			"at least one timestamp is set (otherwise the name table embeds today's date - excluded by the property)",
 			"OS/2 selection flags only in combinations the OS/2 specification allows",
